@@ -253,7 +253,9 @@ def parked_overflow(acc, rng, size, delta, style, no_entries=False):
         lst.s.push_event(Time(*t), lst.h[i])
         pushes += 1
     # now make w's counter exceed 2^32-1 and push: OverflowError path inside push_event
-    while sut.s._minimal_valid_counter[sut.h[w]] <= 2 ** 32 - 1:
+    # (a fixed number of trashes, not "until the stored counter exceeds": an implementation that wraps the counter itself
+    # must still terminate here and be judged by the drain below)
+    for _ in range(2 ** 32 - sut.s._minimal_valid_counter[sut.h[w]]):
         if w in model.live:
             model.trash(w)
             sut.s.trash_event(sut.h[w])
